@@ -70,6 +70,8 @@ pub struct BatchAppSpec {
     /// 0 ids only | 1 grid+ids | 2 vertex_rtree then grid | 3 grid then vertex_rtree + haversine balancer
     /// 4 inject + grid + custom numeric balancer | 5 edge orientation with edge_rtree | 6 speed model + small iteration limit
     /// 7 single-via k-shortest paths (C12 only)
+    /// 8 energy model (ICE) with real-world adjustment and optional shared prediction cache; distinct
+    ///   speeds fall into distinct cache keys | 9 the same with speeds that share cache keys (lossy cache)
     pub kind: u8,
     pub n: usize,
     pub island: usize,
@@ -78,6 +80,9 @@ pub struct BatchAppSpec {
     pub astar: bool,
     pub with_summary: bool,
     pub iteration_limit: Option<u64>,
+    /// kinds 8/9 (energy model): selects adjustment factor, cache size and model wrapper
+    #[serde(default)]
+    pub variant: u16,
 }
 
 pub const TOLERANCE_M: f64 = 2000.0;
@@ -153,6 +158,32 @@ impl BatchAppSpec {
             };
             a.w_dist = 0.5;
             a.w_time = 1.0;
+        }
+        if self.kind >= 8 {
+            let v = self.variant as usize;
+            let lossy = self.kind == 9;
+            a.state = None;
+            a.w_dist = 0.0;
+            a.w_time = [0.0, 1.0][(v / 18) % 2];
+            a.energy = Some(EnergyAppSpec {
+                speeds_kph: (0..m)
+                    .map(|i| {
+                        if lossy {
+                            30.0 + ((i % 5) * 10) as f64 + 0.001 * ((i / 5 + v) % 5) as f64
+                        } else {
+                            25.0 + ((i * 7 + v) % 60) as f64 + 0.25 * (i % 3) as f64
+                        }
+                    })
+                    .collect(),
+                grades: (0..m)
+                    .map(|i| if lossy { ((i % 3) as f64 - 1.0) * 0.01 } else { (((i * 5 + v) % 9) as f64 - 4.0) * 0.01 })
+                    .collect(),
+                adjustment: [1.0, 1.166, 0.9][v % 3],
+                cache: if lossy { [Some((100, 2, 4)), Some((3, 2, 4))][(v / 3) % 2] } else { [None, Some((100, 2, 4)), Some((3, 2, 4))][(v / 3) % 3] },
+                interpolate: lossy || (v / 9) % 2 == 1,
+                w_energy: 1.0,
+                model: if lossy { 1 } else { ((v / 2) % 2) as u8 },
+            });
         }
         a.input_plugins = self.input_plugins();
         a.output_plugins = vec![OutPlugin::Traversal {
@@ -277,6 +308,9 @@ pub fn query_json(app: &BatchAppSpec, q: &QuerySpec, qid: usize) -> Value {
         o.insert("destination_y".into(), json!(y));
     } else {
         o.insert("destination_vertex".into(), id(&q.destination));
+    }
+    if app.kind >= 8 {
+        o.insert("model_name".into(), json!(ENERGY_VEHICLE));
     }
     // load balancer column
     if app.kind == 4 {
@@ -527,6 +561,20 @@ pub fn canonical(resp: &Value) -> String {
         for k in VOLATILE {
             o.remove(k);
         }
+        // the slot index of a state feature contributed by the models depends on the iteration
+        // order of a hash map at application start: two builds of the same configuration may
+        // number the features differently.  Values are reported by name; the index is dropped
+        if let Some(sm) = o
+            .get_mut("route")
+            .and_then(|r| r.get_mut("state_model"))
+            .and_then(|s| s.as_object_mut())
+        {
+            for (_, f) in sm.iter_mut() {
+                if let Some(f) = f.as_object_mut() {
+                    f.remove("index");
+                }
+            }
+        }
     }
     serde_json::to_string(&sort_keys(&r)).unwrap_or_default()
 }
@@ -570,8 +618,9 @@ pub fn batch_app_strategy(kinds: Vec<u8>) -> BoxedStrategy<BatchAppSpec> {
         any::<bool>(),
         any::<bool>(),
         proptest::option::weighted(0.3, 2u64..12),
+        any::<u16>(),
     )
-        .prop_map(|(kind, n, island, lens, parallelism, astar, with_summary, iteration_limit)| BatchAppSpec {
+        .prop_map(|(kind, n, island, lens, parallelism, astar, with_summary, iteration_limit, variant)| BatchAppSpec {
             kind,
             n,
             island,
@@ -580,6 +629,7 @@ pub fn batch_app_strategy(kinds: Vec<u8>) -> BoxedStrategy<BatchAppSpec> {
             astar,
             with_summary,
             iteration_limit: if kind == 6 { iteration_limit.or(Some(5)) } else { None },
+            variant: if kind >= 8 { variant % 36 } else { 0 },
         })
         .boxed()
 }
